@@ -233,6 +233,9 @@ def run(ctx):
             written[key] = (name, v, meta["protocol"], raw)
             res.evaluations += 1
             res.nontrivial("value " + name)
+            if name == "mytype" and meta["protocol"] != "user.mytype_file":
+                res.violations.append({"what": "a value of the user type is written with %s although a codec for that type was registered (user.mytype_file)" % meta["protocol"],
+                                       "input": {"value": name, "registered": "codec_registry().add_file_codec(...) after the store was created"}, "kf": None})
             if type(v) is str and raw != v.encode("utf-8"):
                 res.violations.append({"what": "text result %s is not stored verbatim (UTF-8)" % name, "input": {"value": name, "stored_prefix": repr(raw[:40])}, "kf": None})
             if type(v) in (bytes, bytearray) and raw != bytes(v):
@@ -254,6 +257,20 @@ def run(ctx):
                     res.violations.append({"what": "%s: result of kind %s written with %s is read back as %s" % (stage, name, proto, repr(got)[:80]),
                                            "input": {"value": name, "protocol": proto, "stage": stage}, "kf": None})
         read_all("same process")
+        # a second store object on the same directories, in the same process (set_store called again): same registry, same answers
+        st_first = st
+        st = LocalFileStore(internal, data)
+        read_all("second store object on the same directories")
+        try:
+            st.store_blob("key_mytype_2", MyType(("b", 2)), None)
+            meta2 = json.load(open(os.path.join(internal, "blobs", "key_mytype_2.meta")))
+            if meta2["protocol"] != "user.mytype_file":
+                res.violations.append({"what": "a second store object on the same directories writes the user type with %s, not with the registered codec" % meta2["protocol"],
+                                       "input": {"value": "mytype", "store": "second LocalFileStore object in the process"}, "kf": None})
+        except BaseException as e:
+            res.violations.append({"what": "a second store object on the same directories cannot store the user type: %s: %s" % (type(e).__name__, str(e)[:120]),
+                                   "input": {"value": "mytype"}, "kf": None})
+        st = st_first
         # registrations in between: a later file codec claiming str, a codec put on top for str, the user codec again
         codec_registry().add_file_codec(shadow)
         read_all("after add_file_codec of a codec that also claims str")
